@@ -557,6 +557,8 @@ class SimLoop(base_events.BaseEventLoop):
         self.set_task_factory(self._task_factory)
         self.current_owner = "server"   # who creates listeners/connections right now
         self.iter_hook = None     # callback(iteration) at the start of every select()
+        self.time_hook = None     # callback(n) just before the n-th advance of virtual time (nothing else can happen)
+        self.time_advances = 0
 
     # -- bookkeeping -------------------------------------------------------
     def _on_error(self, loop, context):
@@ -620,6 +622,11 @@ class SimLoop(base_events.BaseEventLoop):
             raise Quiescent()
         if self._vtime + timeout > self.time_limit:
             raise Quiescent()
+        if self.time_hook is not None:
+            self.time_hook(self.time_advances)
+            if self._ready or net.enabled():
+                return ()
+        self.time_advances += 1
         self._vtime += timeout
         return ()
 
